@@ -204,6 +204,8 @@ def _one_return_parity(fi, p: str, ret: ast.AST, elem_name: str, elem_parity: in
             if name == "map" and len(e.args) == 2 and dotted(e.args[0]) == elem_name:
                 q = go(e.args[1], depth + 1)
                 return None if q is None else q ^ elem_parity
+            if name == "map" and len(e.args) == 2 and dotted(e.args[0]) in ("tuple", "list", "int", "str"):
+                return go(e.args[1], depth + 1)  # a container / scalar conversion applied to every element keeps its bit order
             if name in ("reversed", "flip", "fliplr") and e.args:
                 q = go(e.args[0], depth + 1)
                 return None if q is None else q ^ 1
@@ -826,6 +828,12 @@ def run(ctx):
     from . import c01
 
     share_rule(ctx, "C01", c01.check_embedding_paths, "C04-D7 embedding-entry")
+    # exact expectation values use the same numbering only if they are the quadratic form with the sparse matrix (whose Kronecker
+    # order D4 decides): the path from operator and state to the number is decided once, by C09-D4
+    from . import c09
+
+    share_rule(ctx, "C09", c09.check_expectation, "C04-D8 expectation-path")
+    ctx.floor("C04-D8", 5)
     from ..lints import identity_padding_on_the_left
 
     _hits = identity_padding_on_the_left(ctx.repo, ("operators._utils", "api.wavefunction_simulator", "operators._openfermion_utils.sparse_tools", "wavefunction"))
